@@ -1015,9 +1015,15 @@ def run_c12(t):
                 rew = [r for (r, _), lf in zip(mine, leaves) if lf == lq]
                 want.append((a, mwh.canon_val(cf_expectation(kind, hp, rew, len(rew)))))
         if not outs_equal(got, ("exp", want), "tol", rtol=1e-12, atol=1e-12):
+            gd = dict(got[1]); differing = [a for a, v in want if not outs_equal(("exp", [(a, gd.get(a))]), ("exp", [(a, v)]), "tol", rtol=1e-12, atol=1e-12)]
+            # arms (re-)added after the last accepted training call that still have rows in the stored history
+            last_train = max([j for j, o in enumerate(base["ops"]) if o[0] in ("fit", "pfit") and outs[j][0] != "rejected"] or [-1])
+            readded = [o[1] for j, o in enumerate(base["ops"]) if j > last_train and o[0] == "add" and outs[j][0] != "rejected"
+                       and any(dd == o[1] for dd, _, _ in rows)]
             return False, {"why": "expectations differ from the learning policy statistic over the observations in the query's %s" % (
                                "cluster" if base["np"][0] == "clusters" else "leaf (per arm)"),
-                           "query": q, "got": [(a, mwh.bits_f(v)) for a, v in got[1]], "want": [(a, mwh.bits_f(v)) for a, v in want]}
+                           "query": q, "got": [(a, mwh.bits_f(v)) for a, v in got[1]], "want": [(a, mwh.bits_f(v)) for a, v in want],
+                           "differing_arms": differing, "readded_with_stored_rows_since_training": readded}
     return True, {}
 
 # ------------------------------------------------------------------ C02
@@ -1390,7 +1396,11 @@ def run_c18(t):
                 if snapshot(feats) != snap:
                     return False, {"why": "warm_start modified the caller's arm-feature dictionary"}
             elif k in ("pred", "pexp"):
-                qkind = "np_c" if (kind == "series" and not mab.is_contextual) else kind
+                # a Series query is interpreted through the trained number of features; when the library has none
+                # (context-free bandit; TreeBandit none of whose current arms has a fitted tree) its shape is undetermined
+                no_width = (not mab.is_contextual) or (type(mab._imp).__name__ == "_TreeBandit" and
+                                                        not any(hasattr(t_, "tree_") for t_ in mab._imp.arm_to_tree.values()))
+                qkind = "np_c" if (kind == "series" and no_width) else kind
                 cx = to_container(o[1], qkind, is_matrix=True, integral=True) if o[1] is not None else None
                 snap = snapshot(cx)
                 r = (mab.predict if k == "pred" else mab.predict_expectations)(cx)
